@@ -1,4 +1,5 @@
 import AlgoVerif.Proofs.C16Powerset
+import AlgoVerif.Spec.C16
 /-!
 # C16 helper lemmas, part 6: `Partitions`
 
@@ -58,6 +59,161 @@ structure IsPart (s : MSet α) (P : MSet (MSet α)) : Prop where
   nonempty : ∀ b ∈ P.members, b.members ≠ []
   disj : Disj P.members
   cover : ∀ x, x ∈ s.members ↔ ∃ b ∈ P.members, x ∈ b.members
+
+/-! ### partitions as equivalence relations ("in the same block"), for the completeness argument -/
+
+/-- `x` and `y` lie in one block of the partition object `P` -/
+def SameBlock (P : MSet (MSet α)) (x y : α) : Prop := ∃ b ∈ P.members, x ∈ b.members ∧ y ∈ b.members
+
+/-- `x` and `y` lie in one block of the abstract partition `F` -/
+def SameBlockL (F : List (List α)) (x y : α) : Prop := ∃ b ∈ F, x ∈ b ∧ y ∈ b
+
+theorem pairwise_mem_cases {β : Type} {R : β → β → Prop} : ∀ {l : List β}, l.Pairwise R → ∀ {a b : β},
+    a ∈ l → b ∈ l → a = b ∨ R a b ∨ R b a
+  | [], _, _, _, ha, _ => by cases ha
+  | c :: l, h, a, b, ha, hb => by
+    have h' := List.pairwise_cons.1 h
+    rcases List.mem_cons.1 ha with ha' | ha'
+    · rcases List.mem_cons.1 hb with hb' | hb'
+      · exact .inl (ha'.trans hb'.symm)
+      · exact .inr (.inl (ha' ▸ h'.1 b hb'))
+    · rcases List.mem_cons.1 hb with hb' | hb'
+      · exact .inr (.inr (hb' ▸ h'.1 a ha'))
+      · exact pairwise_mem_cases h'.2 ha' hb'
+
+/-- two blocks of a partition object sharing an element are the same block -/
+theorem IsPart.block_unique {s : MSet α} {P : MSet (MSet α)} (hP : IsPart s P) {b b' : MSet α}
+    (hb : b ∈ P.members) (hb' : b' ∈ P.members) {x : α} (hx : x ∈ b.members) (hx' : x ∈ b'.members) : b = b' := by
+  rcases pairwise_mem_cases hP.disj hb hb' with h | h | h
+  · exact h
+  · exact absurd hx' (h x hx)
+  · exact absurd hx (h x hx')
+
+theorem isPartition_block_unique {F : List (List α)} {L : List α} (hF : Spec.IsPartition F L) {b b' : List α}
+    (hb : b ∈ F) (hb' : b' ∈ F) {x : α} (hx : x ∈ b) (hx' : x ∈ b') : b = b' := by
+  rcases pairwise_mem_cases hF.2.1 hb hb' with h | h | h
+  · exact h
+  · exact absurd hx' (h x hx)
+  · exact absurd hx (h x hx')
+
+theorem SameBlockL.symm {F : List (List α)} {x y : α} : SameBlockL F x y → SameBlockL F y x :=
+  fun ⟨b, hb, hx, hy⟩ => ⟨b, hb, hy, hx⟩
+
+theorem SameBlockL.trans {F : List (List α)} {L : List α} (hF : Spec.IsPartition F L) {x y z : α} :
+    SameBlockL F x y → SameBlockL F y z → SameBlockL F x z := by
+  rintro ⟨b, hb, hx, hy⟩ ⟨b', hb', hy', hz⟩
+  have := isPartition_block_unique hF hb hb' hy hy'
+  subst this
+  exact ⟨b, hb, hx, hz⟩
+
+theorem SameBlockL.refl {F : List (List α)} {L : List α} (hF : Spec.IsPartition F L) {x : α} (hx : x ∈ L) :
+    SameBlockL F x x := by
+  obtain ⟨b, hb, hxb⟩ := (hF.2.2 x).1 hx
+  exact ⟨b, hb, hxb, hxb⟩
+
+theorem SameBlockL.mem {F : List (List α)} {L : List α} (hF : Spec.IsPartition F L) {x y : α}
+    (h : SameBlockL F x y) : x ∈ L ∧ y ∈ L := by
+  obtain ⟨b, hb, hx, hy⟩ := h
+  exact ⟨(hF.2.2 x).2 ⟨b, hb, hx⟩, (hF.2.2 y).2 ⟨b, hb, hy⟩⟩
+
+/-- a block of a partition object is the class of any of its elements -/
+theorem IsPart.mem_block_iff {s : MSet α} {P : MSet (MSet α)} (hP : IsPart s P) {b : MSet α}
+    (hb : b ∈ P.members) {y : α} (hy : y ∈ b.members) (x : α) : x ∈ b.members ↔ SameBlock P y x := by
+  constructor
+  · exact fun hx => ⟨b, hb, hy, hx⟩
+  · rintro ⟨b', hb', hy', hx⟩
+    rw [hP.block_unique hb hb' hy hy']
+    exact hx
+
+/-- `FamEq` partition objects induce the same relation -/
+theorem FamEq.sameBlock {P Q : MSet (MSet α)} (h : FamEq P Q) (x y : α) : SameBlock P x y ↔ SameBlock Q x y := by
+  constructor
+  · rintro ⟨b, hb, hx, hy⟩
+    obtain ⟨c, hc, hcb⟩ := h.1 b hb
+    exact ⟨c, hc, (hcb x).2 hx, (hcb y).2 hy⟩
+  · rintro ⟨b, hb, hx, hy⟩
+    obtain ⟨c, hc, hcb⟩ := h.2 b hb
+    exact ⟨c, hc, (hcb x).2 hx, (hcb y).2 hy⟩
+
+/-- a partition object and an abstract partition of the same set inducing the same relation consist of
+the same blocks -/
+theorem sameFamily_of_sameBlock {s : MSet α} {P : MSet (MSet α)} (hP : IsPart s P) {F : List (List α)}
+    (hF : Spec.IsPartition F s.members) (h : ∀ x y, SameBlock P x y ↔ SameBlockL F x y) :
+    Spec.SameFamily (P.members.map (·.members)) F := by
+  constructor
+  · intro l hl
+    obtain ⟨b, hb, rfl⟩ := List.mem_map.1 hl
+    obtain ⟨x, hx⟩ := List.exists_mem_of_ne_nil _ (hP.nonempty b hb)
+    obtain ⟨f, hf, hxf⟩ := (hF.2.2 x).1 ((hP.cover x).2 ⟨b, hb, hx⟩)
+    refine ⟨f, hf, fun y => ?_⟩
+    constructor
+    · intro hy
+      obtain ⟨f', hf', hxf', hyf'⟩ := (h x y).1 ⟨b, hb, hx, hy⟩
+      rw [isPartition_block_unique hF hf hf' hxf hxf']
+      exact hyf'
+    · intro hy
+      obtain ⟨b', hb', hxb', hyb'⟩ := (h x y).2 ⟨f, hf, hxf, hy⟩
+      rw [hP.block_unique hb hb' hx hxb']
+      exact hyb'
+  · intro f hf
+    obtain ⟨x, hx⟩ := List.exists_mem_of_ne_nil _ (hF.1 f hf).1
+    obtain ⟨b, hb, hxb⟩ := (hP.cover x).1 ((hF.2.2 x).2 ⟨f, hf, hx⟩)
+    refine ⟨b.members, List.mem_map.2 ⟨b, hb, rfl⟩, fun y => ?_⟩
+    constructor
+    · intro hy
+      obtain ⟨b', hb', hxb', hyb'⟩ := (h x y).2 ⟨f, hf, hx, hy⟩
+      rw [hP.block_unique hb hb' hxb hxb']
+      exact hyb'
+    · intro hy
+      obtain ⟨f', hf', hxf', hyf'⟩ := (h x y).1 ⟨b, hb, hxb, hy⟩
+      rw [isPartition_block_unique hF hf hf' hx hxf']
+      exact hyf'
+
+/-- cut `m0` out of an abstract partition: remove it from its block and drop the block if it becomes empty -/
+def cutOut [DecidableEq α] (m0 : α) (F : List (List α)) : List (List α) :=
+  (F.map (fun b => b.filter (fun x => decide (x ≠ m0)))).filter (fun b => !b.isEmpty)
+
+theorem mem_cutOut [DecidableEq α] {m0 : α} {F : List (List α)} {b' : List α} :
+    b' ∈ cutOut m0 F ↔ b' ≠ [] ∧ ∃ b ∈ F, b' = b.filter (fun x => decide (x ≠ m0)) := by
+  simp only [cutOut, List.mem_filter, List.mem_map, Bool.not_eq_eq_eq_not, Bool.not_true, List.isEmpty_eq_false_iff]
+  constructor
+  · rintro ⟨⟨b, hb, rfl⟩, hne⟩; exact ⟨hne, b, hb, rfl⟩
+  · rintro ⟨hne, b, hb, rfl⟩; exact ⟨⟨b, hb, rfl⟩, hne⟩
+
+theorem cutOut_partition [DecidableEq α] {F : List (List α)} {L T : List α} {m0 : α} (hF : Spec.IsPartition F L)
+    (hT : ∀ x, x ∈ T ↔ x ∈ L ∧ x ≠ m0) :
+    Spec.IsPartition (cutOut m0 F) T ∧
+      ∀ x y, SameBlockL (cutOut m0 F) x y ↔ SameBlockL F x y ∧ x ≠ m0 ∧ y ≠ m0 := by
+  refine ⟨⟨?_, ?_, ?_⟩, ?_⟩
+  · intro b' hb'
+    obtain ⟨hne, b, hb, rfl⟩ := mem_cutOut.1 hb'
+    exact ⟨hne, List.Pairwise.sublist List.filter_sublist (hF.1 b hb).2⟩
+  · unfold cutOut
+    refine List.Pairwise.filter _ (List.Pairwise.map _ ?_ hF.2.1)
+    intro a b hab x hxa hxb
+    exact hab x (List.mem_filter.1 hxa).1 (List.mem_filter.1 hxb).1
+  · intro x
+    rw [hT, hF.2.2]
+    constructor
+    · rintro ⟨⟨b, hb, hxb⟩, hne⟩
+      refine ⟨b.filter (fun x => decide (x ≠ m0)), mem_cutOut.2 ⟨?_, b, hb, rfl⟩, ?_⟩
+      · exact List.ne_nil_of_mem (List.mem_filter.2 ⟨hxb, by simpa using hne⟩)
+      · exact List.mem_filter.2 ⟨hxb, by simpa using hne⟩
+    · rintro ⟨b', hb', hxb'⟩
+      obtain ⟨_, b, hb, rfl⟩ := mem_cutOut.1 hb'
+      have := List.mem_filter.1 hxb'
+      exact ⟨⟨b, hb, this.1⟩, by simpa using this.2⟩
+  · intro x y
+    constructor
+    · rintro ⟨b', hb', hx, hy⟩
+      obtain ⟨_, b, hb, rfl⟩ := mem_cutOut.1 hb'
+      have hx' := List.mem_filter.1 hx
+      have hy' := List.mem_filter.1 hy
+      exact ⟨⟨b, hb, hx'.1, hy'.1⟩, by simpa using hx'.2, by simpa using hy'.2⟩
+    · rintro ⟨⟨b, hb, hx, hy⟩, hxne, hyne⟩
+      have hx' : x ∈ b.filter (fun x => decide (x ≠ m0)) := List.mem_filter.2 ⟨hx, by simpa using hxne⟩
+      have hy' : y ∈ b.filter (fun x => decide (x ≠ m0)) := List.mem_filter.2 ⟨hy, by simpa using hyne⟩
+      exact ⟨_, mem_cutOut.2 ⟨List.ne_nil_of_mem hx', b, hb, rfl⟩, hx', hy'⟩
 
 /-- adding a list of pairwise different new blocks to an unordered set of blocks appends them -/
 theorem addAll_new_unordered : ∀ (vs : List (MSet α)) (PS : MSet (MSet α)), WF1 PS →
@@ -314,6 +470,8 @@ structure PartSpec (s : MSet α) (Ps : MSet (MSet (MSet α))) : Prop where
   wf : WF2 Ps
   impl : Ps.impl = .unordered partEqFunc
   sound : ∀ P ∈ Ps.members, IsPart s P
+  complete : ∀ F : List (List α), Spec.IsPartition F s.members →
+    ∃ P ∈ Ps.members, ∀ x y, SameBlock P x y ↔ SameBlockL F x y
 
 theorem partitions_spec {sh : Shuffle σ} (hsh : ShLaw sh) : ∀ (fuel : Nat) (s : MSet α), WF0 s → ∀ g,
     s.members.length < fuel → ∃ Ps g', partitions sh fuel s g = .ok (Ps, g') ∧ PartSpec s Ps
@@ -324,12 +482,23 @@ theorem partitions_spec {sh : Shuffle σ} (hsh : ShLaw sh) : ∀ (fuel : Nat) (s
     · have hnil : s.members = [] := by
         simp only [MSet.size] at hsz
         exact List.eq_nil_of_length_eq_zero (by omega)
-      obtain ⟨Ps, h₁, hw, hi, _, hfrom, _⟩ := add_partition wf2_new rfl (Q := MSet.new (.unordered setEqFunc)) wf1_new
-      refine ⟨Ps, g, by simp [hsz, h₁], hw, hi, ?_⟩
-      intro P hP
-      rcases hfrom P hP with hP | rfl
-      · simp [MSet.new] at hP
-      · exact ⟨wf1_new, rfl, by simp [MSet.new], by simp [MSet.new, Disj], by simp [MSet.new, hnil]⟩
+      obtain ⟨Ps, h₁, hw, hi, _, hfrom, ⟨Y, hY, hYQ⟩⟩ :=
+        add_partition wf2_new rfl (Q := MSet.new (.unordered setEqFunc)) wf1_new
+      refine ⟨Ps, g, by simp [hsz, h₁], hw, hi, ?_, ?_⟩
+      · intro P hP
+        rcases hfrom P hP with hP | rfl
+        · simp [MSet.new] at hP
+        · exact ⟨wf1_new, rfl, by simp [MSet.new], by simp [MSet.new, Disj], by simp [MSet.new, hnil]⟩
+      · intro F hF
+        refine ⟨Y, hY, fun x y => ?_⟩
+        rw [hYQ.sameBlock]
+        constructor
+        · rintro ⟨b, hb, _⟩
+          simp [MSet.new] at hb
+        · intro h
+          have := (SameBlockL.mem hF h).1
+          rw [hnil] at this
+          cases this
     · obtain ⟨members, g₁, ha, hp, _⟩ := MSet.all_spec hsh s g
       have hlen := hp.length_eq
       cases members with
@@ -355,12 +524,12 @@ theorem partitions_spec {sh : Shuffle σ} (hsh : ShLaw sh) : ∀ (fuel : Nat) (s
         simp only [List.length_cons] at hlen
         obtain ⟨sub, g₂, hsub, hspec⟩ := partitions_spec hsh fuel tail htw g₁ (by omega)
         obtain ⟨parts, g₃, hall, hperm, _⟩ := MSet.all_spec hsh sub g₂
-        obtain ⟨Ps, g₄, hloop, hw, hi, _, hfrom, _⟩ :=
+        obtain ⟨Ps, g₄, hloop, hw, hi, _, hfrom, hrep⟩ :=
           partitionsLoop_spec hsh hhw hhm' (s := s) (tail := tail)
             (fun x => by rw [hmem_s, htm']) (fun h => hnd'.1 ((htm' m0).1 h))
             parts (MSet.new (.unordered partEqFunc)) wf2_new rfl
             (fun P hP => hspec.sound P (hperm.subset hP)) g₃
-        refine ⟨Ps, g₄, ?_, hw, hi, ?_⟩
+        refine ⟨Ps, g₄, ?_, hw, hi, ?_, ?_⟩
         · simp only [hsz, ↓reduceIte, ha, ok_bind]
           simp only [MSet.add_singleton, hh₁, ht₁, hsub, hall, ok_bind]
           exact hloop
@@ -368,5 +537,138 @@ theorem partitions_spec {sh : Shuffle σ} (hsh : ShLaw sh) : ∀ (fuel : Nat) (s
           rcases hfrom P hP with h | h
           · simp [MSet.new] at h
           · exact h
+        · intro F hF
+          classical
+          have hT : ∀ x, x ∈ tail.members ↔ x ∈ s.members ∧ x ≠ m0 := by
+            intro x
+            rw [htm', hmem_s]
+            constructor
+            · intro h
+              exact ⟨.inr h, fun hx => hnd'.1 (hx ▸ h)⟩
+            · rintro ⟨rfl | h, hne⟩
+              · exact absurd rfl hne
+              · exact h
+          obtain ⟨hF', hrel'⟩ := cutOut_partition hF hT
+          obtain ⟨P', hP', hP'rel⟩ := hspec.complete _ hF'
+          have hP'part : IsPart tail P' := hspec.sound P' hP'
+          obtain ⟨hR0, hRi⟩ := hrep P' (hperm.symm.subset hP')
+          have hr' : ∀ x y, SameBlock P' x y ↔ SameBlockL F x y ∧ x ≠ m0 ∧ y ≠ m0 :=
+            fun x y => (hP'rel x y).trans (hrel' x y)
+          have hm0L : m0 ∈ s.members := (hmem_s m0).2 (.inl rfl)
+          by_cases hex : ∃ y, y ≠ m0 ∧ SameBlockL F m0 y
+          · -- the head shares its block with some `y`: it was put into the block of `y`
+            obtain ⟨y, hyne, hm0y⟩ := hex
+            have hyL := (SameBlockL.mem hF hm0y).2
+            obtain ⟨b, hb, hyb⟩ := (hP'part.cover y).1 ((hT y).2 ⟨hyL, hyne⟩)
+            obtain ⟨Q, u, a₁, a₂, ⟨Y, hY, hYQ⟩, hpermQ, hQm, hu⟩ := hRi b hb
+            refine ⟨Y, hY, fun x z => ?_⟩
+            rw [hYQ.sameBlock]
+            have hub : ∀ x, x ∈ u.members ↔ SameBlockL F m0 x := by
+              intro x
+              rw [hu, hP'part.mem_block_iff hb hyb, hr']
+              constructor
+              · rintro (rfl | ⟨h, _, _⟩)
+                · exact SameBlockL.refl hF hm0L
+                · exact SameBlockL.trans hF hm0y h
+              · intro h
+                by_cases hx : x = m0
+                · exact .inl hx
+                · exact .inr ⟨SameBlockL.trans hF hm0y.symm h, hyne, hx⟩
+            constructor
+            · rintro ⟨c, hc, hxc, hzc⟩
+              rw [hQm] at hc
+              rcases List.mem_append.1 hc with hc | hc
+              · have hcP : c ∈ P'.members := hpermQ.subset (by simp [hc])
+                exact ((hr' x z).1 ⟨c, hcP, hxc, hzc⟩).1
+              · rcases List.mem_cons.1 hc with rfl | hc
+                · exact SameBlockL.trans hF ((hub x).1 hxc).symm ((hub z).1 hzc)
+                · have hcP : c ∈ P'.members := hpermQ.subset (by simp [hc])
+                  exact ((hr' x z).1 ⟨c, hcP, hxc, hzc⟩).1
+            · intro hxz
+              by_cases hm0x : SameBlockL F m0 x
+              · exact ⟨u, by rw [hQm]; simp, (hub x).2 hm0x, (hub z).2 (SameBlockL.trans hF hm0x hxz)⟩
+              · have hxL := (SameBlockL.mem hF hxz).1
+                have hxne : x ≠ m0 := by
+                  intro h
+                  rw [h] at hm0x
+                  exact hm0x (SameBlockL.refl hF hm0L)
+                have hzne : z ≠ m0 := by
+                  intro h
+                  rw [h] at hxz
+                  exact hm0x hxz.symm
+                obtain ⟨c, hcP, hxc, hzc⟩ := (hr' x z).2 ⟨hxz, hxne, hzne⟩
+                have hc' : c ∈ a₁ ++ b :: a₂ := hpermQ.symm.subset hcP
+                have hcb : c ≠ b := by
+                  intro h
+                  rw [h] at hxc
+                  have := (hr' y x).1 ⟨b, hb, hyb, hxc⟩
+                  exact hm0x (SameBlockL.trans hF hm0y this.1)
+                refine ⟨c, ?_, hxc, hzc⟩
+                rw [hQm]
+                rcases List.mem_append.1 hc' with h | h
+                · exact List.mem_append_left _ h
+                · rcases List.mem_cons.1 h with h | h
+                  · exact absurd h hcb
+                  · exact List.mem_append_right _ (List.mem_cons_of_mem _ h)
+          · -- the head is alone in its block: the partition with the new block {head}
+            obtain ⟨Q, ⟨Y, hY, hYQ⟩, Pm, hpermQ, hQm⟩ := hR0
+            refine ⟨Y, hY, fun x z => ?_⟩
+            rw [hYQ.sameBlock]
+            have honly : ∀ w, SameBlockL F m0 w → w = m0 := by
+              intro w hw
+              exact Classical.byContradiction (fun hne => hex ⟨w, hne, hw⟩)
+            constructor
+            · rintro ⟨c, hc, hxc, hzc⟩
+              rw [hQm] at hc
+              rcases List.mem_cons.1 hc with rfl | hc
+              · rw [(hhm' x).1 hxc, (hhm' z).1 hzc]
+                exact SameBlockL.refl hF hm0L
+              · exact ((hr' x z).1 ⟨c, hpermQ.subset hc, hxc, hzc⟩).1
+            · intro hxz
+              by_cases hx : x = m0
+              · rw [hx] at hxz ⊢
+                rw [honly z hxz]
+                exact ⟨head, by rw [hQm]; simp, (hhm' _).2 rfl, (hhm' _).2 rfl⟩
+              · have hz : z ≠ m0 := by
+                  intro h
+                  rw [h] at hxz
+                  exact hx (honly x hxz.symm)
+                obtain ⟨c, hcP, hxc, hzc⟩ := (hr' x z).2 ⟨hxz, hx, hz⟩
+                exact ⟨c, by rw [hQm]; exact List.mem_cons_of_mem _ (hpermQ.symm.subset hcP), hxc, hzc⟩
+
+/-! ### back to the vocabulary of the Spec -/
+
+theorem IsPart.isPartition {s : MSet α} {P : MSet (MSet α)} (hP : IsPart s P) :
+    Spec.IsPartition (P.members.map (·.members)) s.members := by
+  refine ⟨?_, ?_, ?_⟩
+  · intro l hl
+    obtain ⟨b, hb, rfl⟩ := List.mem_map.1 hl
+    exact ⟨hP.nonempty b hb, (hP.wf.mem_dom b hb).nodup⟩
+  · exact List.pairwise_map.2 hP.disj
+  · intro x
+    rw [hP.cover]
+    constructor
+    · rintro ⟨b, hb, hx⟩
+      exact ⟨b.members, List.mem_map.2 ⟨b, hb, rfl⟩, hx⟩
+    · rintro ⟨l, hl, hx⟩
+      obtain ⟨b, hb, rfl⟩ := List.mem_map.1 hl
+      exact ⟨b, hb, hx⟩
+
+theorem famEq_iff_sameFamily (P Q : MSet (MSet α)) :
+    FamEq P Q ↔ Spec.SameFamily (P.members.map (·.members)) (Q.members.map (·.members)) := by
+  have key : ∀ A B : MSet (MSet α), SubR SetEq A.members B.members ↔
+      ∀ b ∈ A.members.map (·.members), ∃ b' ∈ B.members.map (·.members), ∀ x, x ∈ b ↔ x ∈ b' := by
+    intro A B
+    constructor
+    · intro h l hl
+      obtain ⟨b, hb, rfl⟩ := List.mem_map.1 hl
+      obtain ⟨c, hc, hcb⟩ := h b hb
+      exact ⟨c.members, List.mem_map.2 ⟨c, hc, rfl⟩, fun x => (hcb x).symm⟩
+    · intro h b hb
+      obtain ⟨l, hl, hbl⟩ := h b.members (List.mem_map.2 ⟨b, hb, rfl⟩)
+      obtain ⟨c, hc, rfl⟩ := List.mem_map.1 hl
+      exact ⟨c, hc, fun x => (hbl x).symm⟩
+  unfold FamEq SameR Spec.SameFamily
+  rw [key P Q, key Q P]
 
 end AlgoVerif.C16
